@@ -1,8 +1,529 @@
-import CTV.Model.Tbs
+import CTV.Lemmas.Tbs
 import CTV.Gen.TbsFacts
+/-!
+# C03 — precertificate route and embedded-SCT route yield the identical log entry
+
+Model: `CTV/Der/Tlv.lean` (DER tag/length/value exactly as the repository's asn1 fork reads and writes it) and
+`CTV/Model/Tbs.lean` (`removeExtension`, `BuildPrecertTBS`, the two leaf builders, the SCT-list extension codec).
+`parseTbs bs = some t` says: `bs` is a **canonical** TBSCertificate (the fork parses it and marshals it back byte for
+byte) with content `t`. The correspondence run compares this domain, and every result, with the real functions.
+
+The OIDs, the asn1/tls struct tags and the wiring of the thin wrappers are regenerated from the Go source
+(`Gen.*`, CTV/Gen/TbsFacts.lean); `facts_as_modelled` pins the model to them.
+-/
+set_option linter.unusedSimpArgs false
+set_option linter.unusedVariables false
 namespace C03
 open CTV CTV.Tbs
 
-theorem placeholder : poisonOid = oidContent Gen.oidCTPoison := by decide
+/-! ## what is regenerated from the source on every run -/
+
+/-- The model's OIDs are the repository's; the struct tags that decide how a TBSCertificate / Extension /
+AlgorithmIdentifier is unmarshalled and marshalled are the ones the model was written against; the wrappers
+call what the model says they call. A change to any of these breaks this theorem (a broken tie, not a silent drift). -/
+theorem facts_as_modelled :
+    poisonOid = oidContent Gen.oidCTPoison ∧ sctOid = oidContent Gen.oidCTSCT ∧ akiOid = oidContent Gen.oidAuthorityKeyId ∧
+    Gen.tbsCertificateFields =
+      [("Raw", "asn1.RawContent", ""), ("Version", "int", "optional,explicit,default:0,tag:0"), ("SerialNumber", "*big.Int", ""),
+       ("SignatureAlgorithm", "pkix.AlgorithmIdentifier", ""), ("Issuer", "asn1.RawValue", ""), ("Validity", "validity", ""),
+       ("Subject", "asn1.RawValue", ""), ("PublicKey", "publicKeyInfo", ""), ("UniqueId", "asn1.BitString", "optional,tag:1"),
+       ("SubjectUniqueId", "asn1.BitString", "optional,tag:2"), ("Extensions", "[]pkix.Extension", "optional,explicit,tag:3")] ∧
+    Gen.extensionFields = [("Id", "asn1.ObjectIdentifier", ""), ("Critical", "bool", "optional"), ("Value", "[]byte", "")] ∧
+    Gen.algorithmIdentifierFields = [("Algorithm", "asn1.ObjectIdentifier", ""), ("Parameters", "asn1.RawValue", "optional")] ∧
+    Gen.validityFields = [("NotBefore", "time.Time", ""), ("NotAfter", "time.Time", "")] ∧
+    Gen.publicKeyInfoFields = [("Raw", "asn1.RawContent", ""), ("Algorithm", "pkix.AlgorithmIdentifier", ""), ("PublicKey", "asn1.BitString", "")] ∧
+    Gen.removeSCTListReturns = "removeExtension(tbsData, OIDExtensionCTSCT)" ∧
+    Gen.removeCTPoisonReturns = "BuildPrecertTBS(tbsData, nil)" ∧
+    Gen.buildPrecertTBSFirst = "data, err := removeExtension(tbsData, OIDExtensionCTPoison)" ∧
+    Gen.removeExtensionEdit = ["tbs.Extensions = append(tbs.Extensions[:extAt], tbs.Extensions[extAt+1:]...)"] ∧
+    Gen.leafFromChainCalls = ["x509.BuildPrecertTBS(cert.RawTBSCertificate, preIssuer)"] ∧
+    Gen.leafForEmbeddedCalls = ["x509.RemoveSCTList(cert.RawTBSCertificate)"] := by
+  refine ⟨by decide, by decide, by decide, by decide, by decide, by decide, by decide, by decide, by decide, by decide,
+    by decide, by decide, by decide, by decide⟩
+
+/-- the SCT-list length prefixes are two bytes wide for the regenerated limits (`byteCount(maxlen) = 2`) -/
+def genLim : SctLimits := ⟨Gen.sctItemMin, Gen.sctItemMax, Gen.sctListMin, Gen.sctListMax⟩
+
+theorem genLim_two_byte_prefixes : 256 ≤ genLim.itemMax ∧ genLim.itemMax < 65536 ∧ 256 ≤ genLim.listMax ∧ genLim.listMax < 65536 := by
+  decide
+
+/-! ## DER: encodings are unique -/
+
+/-- `parseTbs` and `marshalTbs` are mutually inverse: a byte string is a canonical TBSCertificate with content `t`
+iff it is the marshalling of the well-formed `t`. In particular the canonical encoding of a content is unique. -/
+theorem canonical_iff (bs : Bytes) (t : Tbs) : parseTbs bs = some t ↔ (t.wf = true ∧ marshalTbs t = bs) := by
+  constructor
+  · intro h; have := parseTbs_eq h; exact ⟨this.2, this.1⟩
+  · rintro ⟨hw, rfl⟩; exact parseTbs_marshal t hw
+
+/-- TLV level: what is parsed is exactly what would be encoded (`parseTagAndLength` admits one form only) -/
+theorem tlv_unique (bs : Bytes) (t : Tlv) (r : Bytes) :
+    parseTlv bs = some (t, r) ↔ (t.ok = true ∧ bs = encTlv t ++ r) := by
+  constructor
+  · intro h; have := parseTlv_eq h; exact ⟨this.2, this.1⟩
+  · rintro ⟨ho, rfl⟩; exact parseTlv_encTlv t r ho
+
+/-- contents split into TLVs in exactly one way -/
+theorem split_unique (bs : Bytes) (ts : List Tlv) :
+    splitTlvs bs = some ts ↔ ((∀ t ∈ ts, t.ok = true) ∧ bs = concatTlvs ts) := by
+  constructor
+  · intro h; have := splitTlvs_eq h; exact ⟨this.2, this.1⟩
+  · rintro ⟨ho, rfl⟩; exact splitTlvs_concat ts ho
+
+/-! ## concrete material for the non-vacuity examples -/
+
+def utc2030 : Bytes := [0x33, 0x30, 0x30, 0x31, 0x30, 0x31, 0x30, 0x30, 0x30, 0x30, 0x30, 0x30, 0x5a]   -- "300101000000Z"
+def utc2049 : Bytes := [0x34, 0x39, 0x31, 0x32, 0x33, 0x31, 0x32, 0x33, 0x35, 0x39, 0x35, 0x39, 0x5a]   -- "491231235959Z"
+
+/-- a v3 certificate content with an Ed25519 key and empty names, no extensions yet -/
+def exBase : Tbs :=
+  { version := some ⟨[0xa0], [0x02, 0x01, 0x02]⟩, serial := ⟨[0x02], [0x05]⟩,
+    sigAlg := ⟨[0x30], [0x06, 0x03, 0x2b, 0x65, 0x70]⟩, issuer := ⟨[0x30], []⟩,
+    validity := ⟨[0x30], encTlv ⟨[0x17], utc2030⟩ ++ encTlv ⟨[0x17], utc2049⟩⟩, subject := ⟨[0x30], []⟩,
+    spki := ⟨[0x30], [0x30, 0x05, 0x06, 0x03, 0x2b, 0x65, 0x70, 0x03, 0x01, 0x00]⟩,
+    uid := none, suid := none, exts := none }
+
+def exKU : Ext := ⟨[0x55, 0x1d, 0x0f], true, [0x03, 0x02, 0x07, 0x80]⟩            -- keyUsage, critical
+def exAKI : Ext := ⟨akiOid, false, [0x30, 0x03, 0x80, 0x01, 0x07]⟩               -- authorityKeyIdentifier (key id 07)
+def exPoison : Ext := ⟨poisonOid, true, [0x05, 0x00]⟩
+def exSct : Ext := ⟨sctOid, false, [0x04, 0x06, 0x00, 0x04, 0x00, 0x02, 0xaa, 0xbb]⟩  -- one 2-byte "SCT"
+/-- the pre-issuer's own issuer is named by `31 00`-content RDNSequence `30 02 31 00`; its AKI has key id 09 -/
+def exPre : PreIssuer := ⟨⟨[0x30], [0x31, 0x00]⟩, some [0x30, 0x03, 0x80, 0x01, 0x09], true⟩
+
+/-! ## `remove_exact` -/
+
+/-- **Removal is exact.** For a canonical TBSCertificate `bs` with content `t`: `removeExtension` fails iff the OID occurs
+0 or ≥ 2 times; when it succeeds the input is `30 len (P ‖ a3 len (30 len (A ‖ X ‖ B)))` and the output is
+`30 len' (P ‖ a3 len' (30 len' (A ‖ B)))` — `X` the one extension with that OID, `P` the fields before the extensions,
+`A`/`B` the encodings of the extensions before/after: every other byte equal and in order, only the three enclosing
+lengths re-encoded. The output is again canonical. -/
+theorem remove_exact (oid bs : Bytes) (t : Tbs) (h : parseTbs bs = some t) :
+    (removeExt oid bs = none ↔ countOid oid (t.exts.getD []) ≠ 1) ∧
+    ∀ out, removeExt oid bs = some out →
+      ∃ A x B, t.exts = some (A ++ x :: B) ∧ x.oid = oid ∧ (∀ e ∈ A ++ B, e.oid ≠ oid) ∧
+        bs = encTlv ⟨[0x30], concatTlvs t.pre ++
+               encTlv ⟨[0xa3], encTlv ⟨[0x30], encExts A ++ encTlv (encExt x) ++ encExts B⟩⟩⟩ ∧
+        out = encTlv ⟨[0x30], concatTlvs t.pre ++ encTlv ⟨[0xa3], encTlv ⟨[0x30], encExts A ++ encExts B⟩⟩⟩ ∧
+        parseTbs out = some (t.withExts (A ++ B)) := by
+  obtain ⟨hbs, hw⟩ := parseTbs_eq h
+  constructor
+  · simp only [removeExt, h, removeExtT]
+    rw [← removeOne_none_iff]
+    cases removeOne oid (t.exts.getD []) <;> simp
+  · intro out ho
+    simp only [removeExt, h, removeExtT] at ho
+    cases hr : removeOne oid (t.exts.getD []) with
+    | none => simp [hr] at ho
+    | some r =>
+      simp only [hr] at ho
+      simp at ho
+      obtain ⟨A, x, B, h1, h2, h3, h4, h5⟩ := removeOne_spec hr
+      have hex : t.exts = some (A ++ x :: B) := by
+        cases he : t.exts with
+        | none => simp [he] at h1
+        | some es => simp [he] at h1; simp [h1]
+      subst h2
+      have hoks : ∀ e ∈ A ++ B, e.ok = true := by
+        have h10 := (wf_parts hw).2.2.2.2.2.2.2.2.2.1
+        rw [hex] at h10
+        simp only [optAll, extsOk, Bool.and_eq_true, List.all_eq_true] at h10
+        intro e he
+        apply h10.1.1
+        simp at he ⊢
+        rcases he with he | he
+        · exact Or.inl he
+        · exact Or.inr (Or.inr he)
+      have hlen : (encExts (A ++ B)).length ≤ (encExts (A ++ x :: B)).length := by
+        simp [encExts_append, encExts_cons]
+      have hw' := wf_setExts hw hex hoks hlen
+      refine ⟨A, x, B, hex, h3, ?_, ?_, ?_, ?_⟩
+      · intro e he
+        simp at he
+        rcases he with he | he
+        · exact h4 e he
+        · exact h5 e he
+      · rw [← hbs]
+        simp [marshalTbs, Tbs.fields, hex, optList, concatTlvs_append, concatTlvs, extsField, encExts_append, encExts_cons]
+      · rw [← ho]
+        simp [marshalTbs, Tbs.fields, optList, concatTlvs_append, concatTlvs, extsField, Tbs.pre, encExts_append]
+      · rw [← ho]
+        exact parseTbs_marshal _ hw'
+
+/-- `[keyUsage, poison]`: the poison is removed, `a3 27 30 25 … ` becomes `a3 12 30 10 …`, the outer `30 68` becomes `30 53` -/
+example : parseTbs (marshalTbs (exBase.withExts [exKU, exPoison])) = some (exBase.withExts [exKU, exPoison]) ∧
+    removeExt poisonOid (marshalTbs (exBase.withExts [exKU, exPoison])) = some (marshalTbs (exBase.withExts [exKU])) ∧
+    removeExt sctOid (marshalTbs (exBase.withExts [exKU, exPoison])) = none ∧
+    removeExt poisonOid (marshalTbs (exBase.withExts [exPoison, exKU, exPoison])) = none := by
+  set_option maxRecDepth 100000 in decide
+
+/-- removing the only extension leaves `a3 02 30 00`, not an absent field -/
+example : removeExt poisonOid (marshalTbs (exBase.withExts [exPoison])) = some (marshalTbs (exBase.withExts [])) ∧
+    marshalTbs (exBase.withExts []) ≠ marshalTbs exBase ∧
+    (marshalTbs (exBase.withExts [])).drop ((marshalTbs (exBase.withExts [])).length - 4) = [0xa3, 0x02, 0x30, 0x00] := by
+  set_option maxRecDepth 100000 in decide
+
+/-! ## `routes_commute` (direct issuer) -/
+
+theorem mem_take_of_noOid {oid : Bytes} {es : List Ext} (h : hasOid oid es = false) (i : Nat) :
+    (∀ e ∈ es.take i, e.oid ≠ oid) ∧ (∀ e ∈ es.drop i, e.oid ≠ oid) := by
+  have := hasOid_false.mp h
+  exact ⟨fun e he => this e (List.mem_of_mem_take he), fun e he => this e (List.mem_of_mem_drop he)⟩
+
+/-- removing the one extension that was inserted gives back the certificate without it (and that one is canonical) -/
+theorem removeExt_insert (t : Tbs) (es : List Ext) (i : Nat) (x : Ext) (oid : Bytes) (hx : x.oid = oid)
+    (hn : hasOid oid es = false) (hw : (t.withExts (insertAt es i x)).wf = true) :
+    removeExt oid (marshalTbs (t.withExts (insertAt es i x))) = some (marshalTbs (t.withExts es)) ∧
+    (t.withExts es).wf = true := by
+  obtain ⟨hA, hB⟩ := mem_take_of_noOid hn i
+  have hrm : removeOne oid (insertAt es i x) = some es := by
+    rw [insertAt, removeOne_mid oid _ _ x hx hA hB, List.take_append_drop]
+  have hoks : ∀ e ∈ es, e.ok = true := by
+    have h10 := (wf_parts hw).2.2.2.2.2.2.2.2.2.1
+    simp only [Tbs.withExts, optAll, extsOk, Bool.and_eq_true, List.all_eq_true] at h10
+    intro e he
+    apply h10.1.1
+    rw [← List.take_append_drop i es] at he
+    simp only [insertAt, List.mem_append, List.mem_cons] at he ⊢
+    rcases he with he | he
+    · exact Or.inl he
+    · exact Or.inr (Or.inr he)
+  have hlen : (encExts es).length ≤ (encExts (insertAt es i x)).length := by
+    have e := congrArg (fun l => (encExts l).length) (List.take_append_drop i es)
+    simp only [encExts_append, List.length_append] at e
+    simp only [insertAt, encExts_append, encExts_cons, List.length_append]
+    omega
+  have hw' : (t.withExts es).wf = true := wf_setExts (t := t.withExts (insertAt es i x)) hw rfl hoks hlen
+  refine ⟨?_, hw'⟩
+  have hp := parseTbs_marshal _ hw
+  unfold removeExt
+  rw [hp]
+  simp [removeExtT, Tbs.withExts, hrm]
+
+/-- **The two routes commute (direct issuer).** For every certificate content `t`, every list `es` of other extensions,
+every position `i` of the poison and `j` of the SCT list, any criticality and value of either:
+`BuildPrecertTBS(precert, nil)` and `RemoveSCTList(final)` are the same bytes — the marshalling of `t` with exactly `es`
+(an empty `es` gives `a3 02 30 00` on both sides). The well-formedness hypotheses say that both inputs are canonical. -/
+theorem routes_commute (t : Tbs) (es : List Ext) (i j : Nat) (pc sc : Bool) (pv sv : Bytes)
+    (hnp : hasOid poisonOid es = false) (hns : hasOid sctOid es = false)
+    (hwp : (t.withExts (insertAt es i ⟨poisonOid, pc, pv⟩)).wf = true)
+    (hws : (t.withExts (insertAt es j ⟨sctOid, sc, sv⟩)).wf = true) :
+    buildPrecertTBS (marshalTbs (t.withExts (insertAt es i ⟨poisonOid, pc, pv⟩))) none
+      = removeExt sctOid (marshalTbs (t.withExts (insertAt es j ⟨sctOid, sc, sv⟩))) ∧
+    buildPrecertTBS (marshalTbs (t.withExts (insertAt es i ⟨poisonOid, pc, pv⟩))) none = some (marshalTbs (t.withExts es)) := by
+  obtain ⟨h1, hw1⟩ := removeExt_insert t es i ⟨poisonOid, pc, pv⟩ poisonOid rfl hnp hwp
+  obtain ⟨h2, _⟩ := removeExt_insert t es j ⟨sctOid, sc, sv⟩ sctOid rfl hns hws
+  have : buildPrecertTBS (marshalTbs (t.withExts (insertAt es i ⟨poisonOid, pc, pv⟩))) none = some (marshalTbs (t.withExts es)) := by
+    simp only [buildPrecertTBS, h1, parseTbs_marshal _ hw1]
+  exact ⟨by rw [this, h2], this⟩
+
+/-- poison in front, SCT list at the end, one other extension -/
+example : (exBase.withExts (insertAt [exKU] 0 exPoison)).wf = true ∧ (exBase.withExts (insertAt [exKU] 1 exSct)).wf = true ∧
+    hasOid poisonOid [exKU] = false ∧ hasOid sctOid [exKU] = false ∧
+    buildPrecertTBS (marshalTbs (exBase.withExts [exPoison, exKU])) none = removeExt sctOid (marshalTbs (exBase.withExts [exKU, exSct])) ∧
+    (buildPrecertTBS (marshalTbs (exBase.withExts [exPoison, exKU])) none).isSome = true := by
+  set_option maxRecDepth 100000 in decide
+
+/-! ## `buildPrecertTBS_cases` and the authority-key-id update -/
+
+/-- no extension of `A` is an authority key id -/
+def noAki (A : List Ext) : Prop := ∀ e ∈ A, e.oid ≠ akiOid
+
+/-- how the final certificate's extension list `fe` relates to the precertificate's `pe` (poison aside) when the precertificate
+was signed by a pre-issuer whose own authority key id is `aki`: the three cases of the code, and the trivial one -/
+inductive AkiRel : Option Bytes → List Ext → List Ext → Prop
+  /-- precertificate has an AKI, pre-issuer has one: same place, same criticality, the pre-issuer's value -/
+  | replace (A B : List Ext) (x : Ext) (v : Bytes) : x.oid = akiOid → noAki A → AkiRel (some v) (A ++ x :: B) (A ++ { x with val := v } :: B)
+  /-- precertificate has an AKI, pre-issuer has none: the final certificate has none -/
+  | delete (A B : List Ext) (x : Ext) : x.oid = akiOid → noAki A → AkiRel none (A ++ x :: B) (A ++ B)
+  /-- precertificate has none, pre-issuer has one: the final certificate carries it **as its last extension, non-critical** -/
+  | append (es : List Ext) (v : Bytes) : noAki es → AkiRel (some v) es (es ++ [⟨akiOid, false, v⟩])
+  /-- neither has one -/
+  | same (es : List Ext) : noAki es → AkiRel none es es
+
+theorem setFirst_mid (oid v : Bytes) (A B : List Ext) (x : Ext) (hx : x.oid = oid) (hA : ∀ e ∈ A, e.oid ≠ oid) :
+    setFirst oid v (A ++ x :: B) = A ++ { x with val := v } :: B := by
+  induction A with
+  | nil => simp [setFirst, hx]
+  | cons a A ih =>
+    have ha : a.oid ≠ oid := hA a (by simp)
+    simp only [List.cons_append, setFirst, ha, if_false]
+    rw [ih (fun e he => hA e (by simp [he]))]
+
+theorem eraseFirst_mid (oid : Bytes) (A B : List Ext) (x : Ext) (hx : x.oid = oid) (hA : ∀ e ∈ A, e.oid ≠ oid) :
+    eraseFirst oid (A ++ x :: B) = A ++ B := by
+  induction A with
+  | nil => simp [eraseFirst, hx]
+  | cons a A ih =>
+    have ha : a.oid ≠ oid := hA a (by simp)
+    simp only [List.cons_append, eraseFirst, ha, if_false]
+    rw [ih (fun e he => hA e (by simp [he]))]
+
+/-- the code's update computes exactly that relation -/
+theorem akiUpdate_rel {aki : Option Bytes} {pe fe : List Ext} (h : AkiRel aki pe fe) : akiUpdate aki (some pe) = some fe := by
+  cases h with
+  | replace A B x v hx hA =>
+    have : hasOid akiOid (A ++ x :: B) = true := by simp [hasOid, hx]
+    simp [akiUpdate, this, setFirst_mid akiOid v A B x hx hA]
+  | delete A B x hx hA =>
+    have : hasOid akiOid (A ++ x :: B) = true := by simp [hasOid, hx]
+    simp [akiUpdate, this, eraseFirst_mid akiOid A B x hx hA]
+  | append _ v hn =>
+    have : hasOid akiOid pe = false := hasOid_false.mpr hn
+    simp [akiUpdate, this]
+  | same _ hn =>
+    have : hasOid akiOid pe = false := hasOid_false.mpr hn
+    simp [akiUpdate, this]
+
+/-- and every extension list falls under one of the cases (for either kind of pre-issuer) -/
+theorem akiRel_total (aki : Option Bytes) (pe : List Ext) : ∃ fe, AkiRel aki pe fe := by
+  by_cases h : hasOid akiOid pe = true
+  · have : ∃ A x B, pe = A ++ x :: B ∧ x.oid = akiOid ∧ noAki A := by
+      clear aki
+      induction pe with
+      | nil => simp [hasOid] at h
+      | cons e es ih =>
+        by_cases he : e.oid = akiOid
+        · exact ⟨[], e, es, rfl, he, by simp [noAki]⟩
+        · have : hasOid akiOid es = true := by simpa [hasOid, he] using h
+          obtain ⟨A, x, B, h1, h2, h3⟩ := ih this
+          refine ⟨e :: A, x, B, by simp [h1], h2, ?_⟩
+          intro y hy; simp at hy
+          rcases hy with rfl | hy
+          · exact he
+          · exact h3 y hy
+    obtain ⟨A, x, B, rfl, hx, hA⟩ := this
+    cases aki with
+    | none => exact ⟨_, AkiRel.delete A B x hx hA⟩
+    | some v => exact ⟨_, AkiRel.replace A B x v hx hA⟩
+  · have hn : noAki pe := hasOid_false.mp (by simpa using h)
+    cases aki with
+    | none => exact ⟨_, AkiRel.same pe hn⟩
+    | some v => exact ⟨_, AkiRel.append pe v hn⟩
+
+/-- **Issuer and authority key id are replaced only in the pre-issuer case.** For a canonical precertificate TBS with content `t`:
+* without a pre-issuer the result is `removeExtension(poison)` and nothing else (`remove_exact` then says byte for byte what that is);
+* with a pre-issuer the call fails unless the poison occurs exactly once and the pre-issuer carries the CT EKU, and otherwise
+  the result is the marshalling of `t` minus the poison with `issuer := RawIssuer of the pre-issuer` and the extension list
+  related by `AkiRel` — every other field is `t`'s. -/
+theorem buildPrecertTBS_cases (bs : Bytes) (t : Tbs) (h : parseTbs bs = some t) :
+    buildPrecertTBS bs none = removeExt poisonOid bs ∧
+    ∀ p : PreIssuer,
+      (buildPrecertTBS bs (some p) = none ↔ (countOid poisonOid (t.exts.getD []) ≠ 1 ∨ p.ctEku = false)) ∧
+      ∀ out, buildPrecertTBS bs (some p) = some out →
+        ∃ pe fe, removeOne poisonOid (t.exts.getD []) = some pe ∧ AkiRel p.aki pe fe ∧
+          out = marshalTbs { t with issuer := p.issuer, exts := some fe } := by
+  have hre := remove_exact poisonOid bs t h
+  constructor
+  · cases hr : removeExt poisonOid bs with
+    | none => simp [buildPrecertTBS, hr]
+    | some d =>
+      obtain ⟨A, x, B, _, _, _, _, _, hp⟩ := hre.2 d hr
+      simp [buildPrecertTBS, hr, hp]
+  · intro p
+    cases hr : removeExt poisonOid bs with
+    | none =>
+      have hc := hre.1.mp hr
+      constructor
+      · simp [buildPrecertTBS, hr, hc]
+      · intro out ho; simp [buildPrecertTBS, hr] at ho
+    | some d =>
+      have hc : ¬ countOid poisonOid (t.exts.getD []) ≠ 1 := by
+        intro hc; have := hre.1.mpr hc; rw [hr] at this; simp at this
+      obtain ⟨A, x, B, hex, hxo, hAB, _, _, hp⟩ := hre.2 d hr
+      have hrm : removeOne poisonOid (t.exts.getD []) = some (A ++ B) := by
+        rw [hex]
+        simp only [Option.getD_some]
+        exact removeOne_mid poisonOid A B x hxo (fun e he => hAB e (by simp [he])) (fun e he => hAB e (by simp [he]))
+      constructor
+      · cases he : p.ctEku <;> simp [buildPrecertTBS, hr, hp, he, hc]
+      · intro out ho
+        simp only [buildPrecertTBS, hr, hp] at ho
+        split at ho
+        · obtain ⟨fe, hfe⟩ := akiRel_total p.aki (A ++ B)
+          refine ⟨A ++ B, fe, hrm, hfe, ?_⟩
+          simp at ho
+          rw [← ho]
+          simp [preIssuerEdit, Tbs.withExts, akiUpdate_rel hfe]
+        · simp at ho
+
+/-- AKI replaced in place; deleted; appended; and refusal without the CT EKU -/
+example :
+    buildPrecertTBS (marshalTbs (exBase.withExts [exKU, exAKI, exPoison])) (some exPre)
+      = some (marshalTbs { exBase with issuer := exPre.issuer, exts := some [exKU, { exAKI with val := [0x30, 0x03, 0x80, 0x01, 0x09] }] }) ∧
+    buildPrecertTBS (marshalTbs (exBase.withExts [exAKI, exPoison])) (some { exPre with aki := none })
+      = some (marshalTbs { exBase with issuer := exPre.issuer, exts := some [] }) ∧
+    buildPrecertTBS (marshalTbs (exBase.withExts [exPoison, exKU])) (some exPre)
+      = some (marshalTbs { exBase with issuer := exPre.issuer, exts := some [exKU, ⟨akiOid, false, [0x30, 0x03, 0x80, 0x01, 0x09]⟩] }) ∧
+    buildPrecertTBS (marshalTbs (exBase.withExts [exPoison, exKU])) (some { exPre with ctEku := false }) = none := by
+  set_option maxRecDepth 100000 in decide
+
+/-! ## `routes_commute_preissuer` -/
+
+/-- **The two routes commute (pre-issuer).** Content `c`; the precertificate names the pre-issuer (`piName`, arbitrary) as issuer
+and carries the extensions `pe` plus the poison at any position `i`; the final certificate names the pre-issuer's own issuer
+(`p.issuer`) and carries `fe` plus the SCT list at any position `j`, where `fe` relates to `pe` by `AkiRel p.aki` — all four
+present/absent combinations of the authority key id (in the `append` case the relation *is* the hypothesis that the final
+issuer writes the key id as the last extension, non-critical). Then `BuildPrecertTBS(precert, preIssuer)` and
+`RemoveSCTList(final)` are the same bytes. -/
+theorem routes_commute_preissuer (c : Tbs) (p : PreIssuer) (piName : Tlv) (pe fe : List Ext) (i j : Nat)
+    (pc sc : Bool) (pv sv : Bytes) (hEku : p.ctEku = true) (hrel : AkiRel p.aki pe fe)
+    (hnp : hasOid poisonOid pe = false) (hns : hasOid sctOid fe = false)
+    (hwp : (({ c with issuer := piName } : Tbs).withExts (insertAt pe i ⟨poisonOid, pc, pv⟩)).wf = true)
+    (hws : (({ c with issuer := p.issuer } : Tbs).withExts (insertAt fe j ⟨sctOid, sc, sv⟩)).wf = true) :
+    buildPrecertTBS (marshalTbs (({ c with issuer := piName } : Tbs).withExts (insertAt pe i ⟨poisonOid, pc, pv⟩))) (some p)
+      = removeExt sctOid (marshalTbs (({ c with issuer := p.issuer } : Tbs).withExts (insertAt fe j ⟨sctOid, sc, sv⟩))) ∧
+    buildPrecertTBS (marshalTbs (({ c with issuer := piName } : Tbs).withExts (insertAt pe i ⟨poisonOid, pc, pv⟩))) (some p)
+      = some (marshalTbs (({ c with issuer := p.issuer } : Tbs).withExts fe)) := by
+  obtain ⟨h1, hw1⟩ := removeExt_insert { c with issuer := piName } pe i ⟨poisonOid, pc, pv⟩ poisonOid rfl hnp hwp
+  obtain ⟨h2, _⟩ := removeExt_insert { c with issuer := p.issuer } fe j ⟨sctOid, sc, sv⟩ sctOid rfl hns hws
+  have : buildPrecertTBS (marshalTbs (({ c with issuer := piName } : Tbs).withExts (insertAt pe i ⟨poisonOid, pc, pv⟩))) (some p)
+      = some (marshalTbs (({ c with issuer := p.issuer } : Tbs).withExts fe)) := by
+    simp only [buildPrecertTBS, h1, parseTbs_marshal _ hw1, hEku, if_true]
+    simp [preIssuerEdit, Tbs.withExts, akiUpdate_rel hrel]
+  exact ⟨by rw [this, h2], this⟩
+
+/-- replace case: precertificate issued by the pre-issuer (issuer name `30 02 31 01`… here `30 00`-style stand-in, AKI key id 07),
+final certificate issued by the pre-issuer's issuer (AKI key id 09) -/
+example :
+    AkiRel exPre.aki [exKU, exAKI] [exKU, { exAKI with val := [0x30, 0x03, 0x80, 0x01, 0x09] }] ∧
+    buildPrecertTBS (marshalTbs (({ exBase with issuer := ⟨[0x30], [0x31, 0x01, 0x00]⟩ } : Tbs).withExts [exKU, exPoison, exAKI])) (some exPre)
+      = removeExt sctOid (marshalTbs (({ exBase with issuer := exPre.issuer } : Tbs).withExts
+          [exSct, exKU, { exAKI with val := [0x30, 0x03, 0x80, 0x01, 0x09] }])) ∧
+    (removeExt sctOid (marshalTbs (({ exBase with issuer := exPre.issuer } : Tbs).withExts
+          [exSct, exKU, { exAKI with val := [0x30, 0x03, 0x80, 0x01, 0x09] }]))).isSome = true := by
+  refine ⟨?_, ?_⟩
+  · exact AkiRel.replace [exKU] [] exAKI _ rfl (by intro e he; simp at he; subst he; decide)
+  · set_option maxRecDepth 100000 in decide
+
+/-! ## the leaf builders -/
+
+/-- **Identical log entry.** `MerkleTreeLeafFromChain` on the precertificate chain and `MerkleTreeLeafForEmbeddedSCT` on the final
+chain put the same TBSCertificate and the same issuer key into the `PreCert` entry: direct issuer (chains
+`[precert, issuer, …]` / `[final, issuer, …]`) … -/
+theorem leaf_routes_commute (t : Tbs) (es : List Ext) (i j : Nat) (pc sc : Bool) (pv sv : Bytes) (kIssuer : Bytes) (r1 r2 : List Bytes)
+    (hnp : hasOid poisonOid es = false) (hns : hasOid sctOid es = false)
+    (hwp : (t.withExts (insertAt es i ⟨poisonOid, pc, pv⟩)).wf = true)
+    (hws : (t.withExts (insertAt es j ⟨sctOid, sc, sv⟩)).wf = true) :
+    leafFromPrecertChain (marshalTbs (t.withExts (insertAt es i ⟨poisonOid, pc, pv⟩))) (kIssuer :: r1) none
+      = leafForEmbeddedSCT (marshalTbs (t.withExts (insertAt es j ⟨sctOid, sc, sv⟩))) (kIssuer :: r2) ∧
+    leafForEmbeddedSCT (marshalTbs (t.withExts (insertAt es j ⟨sctOid, sc, sv⟩))) (kIssuer :: r2)
+      = some (marshalTbs (t.withExts es), kIssuer) := by
+  obtain ⟨h1, h2⟩ := routes_commute t es i j pc sc pv sv hnp hns hwp hws
+  simp only [leafFromPrecertChain, leafForEmbeddedSCT, ← h1, h2]
+  simp
+
+/-- … and pre-issuer (chains `[precert, preIssuer, issuer, …]` / `[final, issuer, …]`): the key hashed is the final issuer's on both. -/
+theorem leaf_routes_commute_preissuer (c : Tbs) (p : PreIssuer) (piName : Tlv) (pe fe : List Ext) (i j : Nat)
+    (pc sc : Bool) (pv sv : Bytes) (kPre kIssuer : Bytes) (r1 r2 : List Bytes)
+    (hEku : p.ctEku = true) (hrel : AkiRel p.aki pe fe)
+    (hnp : hasOid poisonOid pe = false) (hns : hasOid sctOid fe = false)
+    (hwp : (({ c with issuer := piName } : Tbs).withExts (insertAt pe i ⟨poisonOid, pc, pv⟩)).wf = true)
+    (hws : (({ c with issuer := p.issuer } : Tbs).withExts (insertAt fe j ⟨sctOid, sc, sv⟩)).wf = true) :
+    leafFromPrecertChain (marshalTbs (({ c with issuer := piName } : Tbs).withExts (insertAt pe i ⟨poisonOid, pc, pv⟩)))
+        (kPre :: kIssuer :: r1) (some p)
+      = leafForEmbeddedSCT (marshalTbs (({ c with issuer := p.issuer } : Tbs).withExts (insertAt fe j ⟨sctOid, sc, sv⟩))) (kIssuer :: r2) ∧
+    leafFromPrecertChain (marshalTbs (({ c with issuer := piName } : Tbs).withExts (insertAt pe i ⟨poisonOid, pc, pv⟩)))
+        [kPre] (some p) = none := by
+  obtain ⟨h1, h2⟩ := routes_commute_preissuer c p piName pe fe i j pc sc pv sv hEku hrel hnp hns hwp hws
+  simp only [leafFromPrecertChain, leafForEmbeddedSCT, ← h1, h2]
+  simp
+
+example : leafFromPrecertChain (marshalTbs (exBase.withExts [exPoison, exKU])) [[1], [2]] none
+    = leafForEmbeddedSCT (marshalTbs (exBase.withExts [exKU, exSct])) [[1]] ∧
+    (leafForEmbeddedSCT (marshalTbs (exBase.withExts [exKU, exSct])) [[1]]).isSome = true ∧
+    leafForEmbeddedSCT (marshalTbs (exBase.withExts [exKU, exSct])) [] = none := by
+  set_option maxRecDepth 100000 in decide
+
+/-! ## `sctlist_roundtrip` -/
+
+theorem encSctItems_parse (lim : SctLimits) (hmax : lim.itemMax < 65536) (l : List Bytes) (b : Bytes) (f : Nat)
+    (h : encSctItems lim l = some b) (hf : b.length ≤ f) : parseSctItemsF lim f b = some l := by
+  induction l generalizing b f with
+  | nil => simp [encSctItems] at h; subst h; cases f <;> rfl
+  | cons s rest ih =>
+    simp only [encSctItems] at h
+    split at h
+    · simp at h
+    · rename_i hb
+      cases hr : encSctItems lim rest with
+      | none => simp [hr] at h
+      | some r =>
+        simp only [hr] at h
+        simp at h; subst h
+        have hs : s.length < 65536 := by omega
+        have h2 : (beEnc 2 s.length).length = 2 := beEnc_length 2 _
+        cases hc : beEnc 2 s.length ++ (s ++ r) with
+        | nil =>
+          have := congrArg List.length hc
+          simp [h2] at this
+        | cons b0 bs0 =>
+          cases f with
+          | zero => rw [hc] at hf; simp at hf
+          | succ f =>
+            simp only [parseSctItemsF]
+            rw [← hc]
+            have t2 : (beEnc 2 s.length ++ (s ++ r)).take 2 = beEnc 2 s.length := take_append_len _ _ _ h2
+            have d2 : (beEnc 2 s.length ++ (s ++ r)).drop 2 = s ++ r := drop_append_len _ _ _ h2
+            have hd : beDec (beEnc 2 s.length) = s.length := beDec_beEnc 2 _ (by simpa using hs)
+            rw [t2, d2, hd]
+            have c1 : ¬ (beEnc 2 s.length ++ (s ++ r)).length < 2 := by simp [h2]
+            have c2 : ¬ (s.length < lim.itemMin ∨ lim.itemMax < s.length) := hb
+            have c3 : ¬ (s ++ r).length < s.length := by simp
+            simp only [c1, c2, c3, if_false]
+            rw [drop_append_len s r _ rfl, take_append_len s r _ rfl]
+            rw [ih r f hr (by simp [h2] at hf; omega)]
+
+/-- **The SCT list read back equals the list embedded, element for element.** For the regenerated limits: whatever
+`ASN1MarshalSCTs` / `tls.Marshal(SignedCertificateTimestampList)` + `asn1.Marshal` writes as the extension value, the
+certificate parser reads back as exactly the same list of `SerializedSCT`s. -/
+theorem sctlist_roundtrip (l : List Bytes) (v : Bytes) (h : sctExtValue genLim l = some v) : parseSctExtValue genLim v = some l := by
+  obtain ⟨_, hi, _, hl⟩ := genLim_two_byte_prefixes
+  simp only [sctExtValue, marshalSctList] at h
+  cases he : encSctItems genLim l with
+  | none => simp [he] at h
+  | some b =>
+    simp only [he] at h
+    split at h
+    · simp at h
+    · rename_i hb
+      simp at h; subst h
+      have hb' : b.length < 65536 := by omega
+      have h2 : (beEnc 2 b.length).length = 2 := beEnc_length 2 _
+      have hok : (⟨[0x04], beEnc 2 b.length ++ b⟩ : Tlv).ok = true := by
+        simp [Tlv.ok, validTag_04, h2]; omega
+      simp only [parseSctExtValue, parseOne_encTlv _ hok, if_true, parseSctList]
+      have t2 : (beEnc 2 b.length ++ b).take 2 = beEnc 2 b.length := take_append_len _ _ _ h2
+      have d2 : (beEnc 2 b.length ++ b).drop 2 = b := drop_append_len _ _ _ h2
+      have hd : beDec (beEnc 2 b.length) = b.length := beDec_beEnc 2 _ (by simpa using hb')
+      rw [t2, d2, hd]
+      have c1 : ¬ (beEnc 2 b.length ++ b).length < 2 := by simp [h2]
+      have c2 : ¬ (b.length < genLim.listMin ∨ genLim.listMax < b.length) := hb
+      simp only [c1, c2, if_false, ne_eq, not_true_eq_false]
+      exact encSctItems_parse genLim hi l b b.length he (Nat.le_refl _)
+
+/-- an empty list and an empty SCT cannot be embedded (`minlen:1` on both levels) -/
+theorem sctlist_min (l : List Bytes) (h : l = [] ∨ [] ∈ l) : sctExtValue genLim l = none := by
+  have hmin : genLim.itemMin = 1 ∧ genLim.listMin = 1 := by decide
+  rcases h with rfl | h
+  · simp [sctExtValue, marshalSctList, encSctItems, hmin.2]
+  · have : encSctItems genLim l = none := by
+      induction l with
+      | nil => simp at h
+      | cons s rest ih =>
+        simp only [encSctItems]
+        split
+        · rfl
+        · rename_i hb
+          simp at h
+          rcases h with h | h
+          · subst h; simp [hmin.1] at hb
+          · simp [ih h]
+    simp [sctExtValue, marshalSctList, this]
+
+example : sctExtValue genLim [[0xaa, 0xbb], [0xcc]] = some [0x04, 0x09, 0x00, 0x07, 0x00, 0x02, 0xaa, 0xbb, 0x00, 0x01, 0xcc] ∧
+    parseSctExtValue genLim [0x04, 0x09, 0x00, 0x07, 0x00, 0x02, 0xaa, 0xbb, 0x00, 0x01, 0xcc] = some [[0xaa, 0xbb], [0xcc]] ∧
+    parseSctExtValue genLim [0x04, 0x0a, 0x00, 0x07, 0x00, 0x02, 0xaa, 0xbb, 0x00, 0x01, 0xcc, 0x00] = none ∧
+    parseSctExtValue genLim [0x04, 0x09, 0x00, 0x07, 0x00, 0x02, 0xaa, 0xbb, 0x00, 0x02, 0xcc] = none := by
+  set_option maxRecDepth 100000 in decide
 
 end C03
